@@ -11,6 +11,11 @@ from amaranth import *
 from ..harness import Harness
 from ..engine import Query
 
+# FINDINGS
+#   58e3140 "fix: give the timestamp packet fields their full width"
+#       bus_interval_counter and delta were 1-bit Signals; caught by counter_full and delta_full (bmc_free, step 1:
+#       a timestamp packet whose counter/delta field has bits above bit 0 set).
+
 PROP = "C47"
 ENCODED = ["luna/gateware/usb/usb3/protocol/timestamp.py: TimestampPacketReceiver (field extraction, output widths, "
            "update strobe, header acceptance)"]
